@@ -428,6 +428,6 @@ func init() {
 			"matchers are written from docs/manual/config.md and the property statement, not from the implementation",
 		},
 		Flavour: "prod+overlay", QuickBudgetS: 150, ThoroughBudgetS: 900,
-		Spaces: func(tier string) []*core.Space { return []*core.Space{c20Space(tier)} },
+		Spaces: func(tier string) []*core.Space { return []*core.Space{c20Space(tier), c20TwoSpace()} },
 	})
 }
